@@ -57,6 +57,18 @@ var startStates = []startState{
 		_ = os.WriteFile(f, []byte("i am a file"), 0o644)
 		return f
 	}, IsFile: true},
+	// configured paths that can never become a directory: below a regular file (ENOTDIR), with a component longer than
+	// the file system allows (ENAMETOOLONG), through a symbolic-link loop (ELOOP): every store is an error return
+	{Name: "path-below-a-file", Prepare: func(s string) string {
+		_ = os.WriteFile(filepath.Join(s, "plain"), []byte("i am a file"), 0o644)
+		return filepath.Join(s, "plain", "store")
+	}, IsFile: true, Missing: true},
+	{Name: "path-component-too-long", Prepare: func(s string) string { return filepath.Join(s, strings.Repeat("n", 300), "store") }, IsFile: true, Missing: true},
+	{Name: "path-through-symlink-loop", Prepare: func(s string) string {
+		_ = os.Symlink(filepath.Join(s, "loop-b"), filepath.Join(s, "loop-a"))
+		_ = os.Symlink(filepath.Join(s, "loop-a"), filepath.Join(s, "loop-b"))
+		return filepath.Join(s, "loop-a", "store")
+	}, IsFile: true, Missing: true},
 	{Name: "directory-name-with-spaces-and-unicode", Prepare: func(s string) string { d := filepath.Join(s, "st ore é✓"); _ = os.MkdirAll(d, 0o755); return d }},
 	{Name: "symlink-to-directory", Prepare: func(s string) string {
 		real := filepath.Join(s, "real")
@@ -158,7 +170,7 @@ func applyOp(t *engine.T, st startState, sandbox, dir string, w *world, o op, fa
 		case o.ID == "":
 			wantErr = "a document without identifier"
 		case st.IsFile:
-			wantErr = "a configured path that is a file"
+			wantErr = "a configured path that is a file or cannot become a directory"
 		case o.NoClobber && w.docs[o.ID] != nil:
 			wantErr = "an existing entry with no-clobber set"
 		}
